@@ -567,4 +567,66 @@ def r18_9(ctx):
     return out
 
 
-RULES = [r18_1, r18_2, r18_3, r18_4, r18_5, r18_6, r18_7, r18_8, r18_9]
+def r18_10(ctx):
+    """abstract run (W) of BezierCurve.split on an exact cubic with one, two and three interior nodes: piece j must be
+    the restriction of the curve to [t_j, t_j+1] (reference: de Casteljau with the later nodes rescaled to the remaining
+    piece).  pynurbs' own splitter is the trusted base: it is answered by the same reference."""
+    out = Outcome("R18.10", "split(nodes): piece j is the curve restricted to [t_j, t_j+1], for several nodes on one "
+                            "segment as well", floor=3)
+    fn = ctx.fn("curve.BezierCurve.split")
+    P = [Fr(0), Fr(1), Fr(3), Fr(-2)]
+
+    def casteljau(pts, t):
+        left, right, cur = [], [], list(pts)
+        while cur:
+            left.append(cur[0])
+            right.insert(0, cur[-1])
+            cur = [a * (1 - t) + b * t for a, b in zip(cur[:-1], cur[1:])]
+        return left, right
+
+    def reference(pts, nodes):
+        pieces, rest, prev = [], list(pts), Fr(0)
+        for t in sorted(set(nodes)):
+            left, rest = casteljau(rest, (Fr(t) - prev) / (1 - prev))
+            pieces.append(tuple(left))
+            prev = Fr(t)
+        pieces.append(tuple(rest))
+        return pieces
+
+    class RefCurve(StandIn):
+        def __init__(self, kv, pts):
+            self.pts = list(pts)
+
+        def split(self, nodes):
+            return [Obj(f"piece{i}", ctrlpoints=p) for i, p in enumerate(reference(self.pts, nodes))]
+
+    def hook(rn, ev, call, name, recv, args, kwargs):
+        if name == "isinstance":
+            return True
+        if name in ("copy", "deepcopy") and args:
+            return args[0]
+        if name == "BezierCurve" or (isinstance(call.func, ast.Attribute) and call.func.attr == "__class__"):
+            return ("BZ", tuple(args[0]))
+        return NotImplemented
+    ext = {"pynurbs.GeneratorKnotVector.bezier": lambda degree, *a: ("KV", degree), "pynurbs.Curve": RefCurve}
+    for nodes in ((Fr(1, 2),), (Fr(1, 4), Fr(3, 4)), (Fr(1, 3), Fr(1, 2), Fr(5, 6))):
+        C = Obj("C", degree=3, npts=4, ctrlpoints=tuple(P))
+        try:
+            got = Runner(ctx, set(), hook, ext=ext).call_fn(fn, [C, nodes])
+        except (Undecided, Raised) as ex:
+            out.undecided(fn.qname, f"nodes {tuple(map(str, nodes))}: {ex}", where=fn.where())
+            continue
+        pieces = [tuple(g[1]) if isinstance(g, tuple) and g and g[0] == "BZ" else tuple(getattr(g, "ctrlpoints", ())) for g in got]
+        want = reference(P, nodes)
+        if pieces == want:
+            out.ok(fn.qname, f"nodes {tuple(map(str, nodes))}: {len(want)} pieces, each the restriction to its interval",
+                   where=fn.where())
+        else:
+            k = next((i for i, (a, b) in enumerate(zip(pieces, want)) if a != b), min(len(pieces), len(want)))
+            out.bad(fn.qname, "a piece of the split is not the curve restricted to its parameter interval", where=fn.where(),
+                    detail=f"cubic {tuple(map(str, P))} split at {tuple(map(str, nodes))}: piece {k} is "
+                           f"{tuple(map(str, pieces[k])) if k < len(pieces) else 'missing'}, required {tuple(map(str, want[k])) if k < len(want) else 'none'}")
+    return out
+
+
+RULES = [r18_1, r18_2, r18_3, r18_4, r18_5, r18_6, r18_7, r18_8, r18_9, r18_10]
